@@ -1,7 +1,7 @@
 -- root of the RSV library: every property module (and through them every model and proof module)
 import RSV.Props.C01all
-import RSV.Props.C02
-import RSV.Props.C03
+import RSV.Props.C02all
+import RSV.Props.C03all
 import RSV.Props.C04all
 import RSV.Props.C05all
 import RSV.Props.C06all
@@ -11,9 +11,9 @@ import RSV.Props.C09
 import RSV.Props.C10all
 import RSV.Props.C11all
 import RSV.Props.C12
-import RSV.Props.C13
+import RSV.Props.C13all
 import RSV.Props.C14
 import RSV.Props.C15
-import RSV.Props.C16
+import RSV.Props.C16all
 import RSV.Props.C17all
 import RSV.Proofs.GenGauss   -- groundwork for the regenerated gaussianElimination (closed forms of its inner loops)
